@@ -33,10 +33,10 @@ pub fn run(ctx: &Ctx) -> i32 {
     ] {
         for k in 1u8..32 {
             for pend in [0u32, u32::MAX] {
-                listed.push(SniffCase { stream: stream.clone(), cuts: vec![k], pendings: pend, tail: 0, eof_now: false });
+                listed.push(SniffCase { stream: stream.clone(), cuts: vec![k], pendings: pend, tail: 0, eof_now: false, error_at: None });
             }
         }
-        listed.push(SniffCase { stream: stream.clone(), cuts: vec![1; 32], pendings: 0x5555_5555, tail: 1, eof_now: false });
+        listed.push(SniffCase { stream: stream.clone(), cuts: vec![1; 32], pendings: 0x5555_5555, tail: 1, eof_now: false, error_at: None });
     }
     let n_listed = listed.len();
     let mut o = run_listed(ctx, &SniffEngine, "all-compositions-of-head", listed);
